@@ -5,7 +5,7 @@ cd /verif
 PAT=${1:-}
 THOROUGH=" C01-r4-reciprocal-with-epsilon-at-scale C10-r4-clique-enumeration-capped-at-1e6 C10-r6-unbounded-cover-ignores-cliques-above-20 C09-r6-score-zero-tolerance-1e-6 C09-r8-score-zero-after-rounding-to-6-digits "
 bad=0; n=0
-OPEN=" C13-r13-both-degrees-from-one-degree-call "      # recorded misses (DESIGN 12.1): reported, not counted as failures
+OPEN=" "      # recorded misses (DESIGN 12.1): reported, not counted as failures
 for d in seeded/*${PAT}*/; do
   name=$(basename $d)
   case "$OPEN" in *" $name "*) echo "open $name (recorded miss)"; continue;; esac
